@@ -229,6 +229,11 @@ func (e *Exec) callValueNoEvent(c *ast.CallExpr, fv Val, args []Val, resT types.
 	}
 	if iface {
 		e.warn("unspecified interface method %s: results havoc'd, no heap effect assumed (A-EXT)", key)
+	} else if fn.Pkg() != nil && strings.HasPrefix(fn.Pkg().Path(), modPath) {
+		// a go-libp2p function of another package without contract: it may change any field of the types of
+		// its own package (those are the unexported fields it can reach)
+		e.warn("go-libp2p function %s has no contract: results and all fields of its package's types havoc'd", key)
+		e.havocPkgFields(fn.Pkg().Path())
 	} else {
 		e.warn("unspecified external function %s: results havoc'd, no heap effect assumed (A-EXT)", key)
 	}
@@ -845,3 +850,19 @@ func (e *Exec) wrapFacts(r string, c *ast.CallExpr, args []Val) {
 
 var _ = token.ADD
 var _ *packages.Package
+
+// havocPkgFields forgets everything known about fields of struct types declared in package path.
+func (e *Exec) havocPkgFields(path string) {
+	prefix := shortPkg(path) + "."
+	var keys []string
+	for k := range e.heapSort {
+		if strings.HasPrefix(k, prefix) {
+			keys = append(keys, k)
+		}
+	}
+	sortStrings(keys)
+	for _, k := range keys {
+		e.st.heap[k] = e.fresh("Hx."+k, e.heapSort[k])
+		e.logWrite(k, "*")
+	}
+}
